@@ -26,8 +26,11 @@ ASSUMPTIONS = [
     "bodies are any lines except the exact strings '{' and '}'",
     "instrument map compared order-insensitively",
 ]
-UNKNOWN = ["Foo", "ExpertVocals", "HardGuitarCoop", "ExpertSingleX", "SingleExpert", "Song2", "Sync Track", "events", "EasySingleBass",
-           "ExpertDoubleDrums", "X", "Expert", "Single"]
+UNKNOWN = ["Foo", "ExpertVocals", "HardGuitarCoop", "ExpertSingleX", "SingleExpert", "Song2", "Sync Track", "EasySingleBass",
+           "ExpertDoubleDrums", "X", "Expert", "Single", "ExpertSingleBackup", "HardDrums2x",
+           # titles that are patterns or format strings to whoever builds a pattern or a message from them without escaping
+           "Expert.ingle", "E.*Single", "ExpertSingle|Foo", "(ExpertSingle)", "^ExpertSingle$", "ExpertSingle$", "ExpertSingle+", "Expert[S]ingle",
+           "ExpertSingle\\b", "%s", "{}", "{0}", "%(name)s", "100%", "a{b", "\\1", "Expert\\Single"]
 BODY_POOL = ["  0 = N 0 0", "  192 = E solo", "  0 = B 120000", "[Song]", "[ExpertSingle]", "  Resolution = 1", "garbage", "", "  ",
              "{ }", "  5 = S 2 10", "  Name = \"{\"", "  0 = E \"section }\"", "{", "x{", "}x"]  # a lone "{" is content of an unknown body; "}" closes it
 TMP = None
